@@ -261,6 +261,23 @@ def check_L(part, job):
         want = np.array([np.mean(np.abs(full[l * l:(l + 1) ** 2]) ** 2) for l in range(L + 1)])
         if np.shape(ps) != want.shape or not (np.abs(ps - want).max() <= 1e-12 * max(1.0, want.max())):
             fail("power-spectrum-real", "power_spectrum (real layout) differs from the per-degree mean of |c|^2 of the completed vector")
+        # the spectrum of a SHAPE: a large constant part (a sphere of radius 1e3) and ripples that fall off like 10^(-l/2) - every degree's
+        # power is its own sum, to relative accuracy, however small it is next to the others
+        if L >= 2:
+            lc = np.array([l for (l, m) in lmc], dtype=float)
+            a_dec = dense(len(lmc), which) * 10.0 ** (-0.5 * lc)
+            a_dec[0] = 3.5e3
+            lr = np.array([l for (l, m) in lmr], dtype=float)
+            r_dec = dense(len(lmr), which) * 10.0 ** (-0.5 * lr)
+            r_dec[: L + 1] = r_dec[: L + 1].real
+            r_dec[0] = 3.5e3
+            for nm, vec, full_ in (("complex", a_dec, a_dec), ("real", r_dec, ylm.complete(L, r_dec))):
+                ps = np.asarray(sht.power_spectrum(vec), dtype=float)
+                want = np.array([np.mean(np.abs(full_[l * l:(l + 1) ** 2]) ** 2) for l in range(L + 1)])
+                if ps.shape != want.shape or not np.all(np.abs(ps - want) <= 1e-10 * want + 1e-300):
+                    lbad = int(np.argmax(np.abs(ps - want) / (want + 1e-300))) if ps.shape == want.shape else -1
+                    fail("power-spectrum-decaying:%s" % nm, "power_spectrum (%s layout) of a decaying spectrum (c00 = 3.5e3, |c_lm| ~ 10^(-l/2)): degree %d is %.6g, the mean of its |c|^2 is %.6g"
+                         % (nm, lbad, ps[lbad] if lbad >= 0 else np.nan, want[lbad] if lbad >= 0 else np.nan))
         fq = ylm.synth_real(L, r, T, P) if use_ref and which == 0 else None
         integral = float(np.sum(fq ** 2 * W)) if fq is not None else float(np.sum(np.abs(full) ** 2))
         if not (abs(np.sum(np.abs(full) ** 2) - integral) <= 1e-8 * max(integral, 1e-30)):
